@@ -106,6 +106,9 @@ def build(pre: Dict[str, Any], via: str = "private"):
     g, rec = _new_builder(pre)
     if via == "private":
         _install_private(g, pre)
+    elif via == "public-unchecked":
+        # symbolic runs that want a TRUE history as pre-state: the public calls only
+        _install_public(g, pre)
     else:
         _install_public(g, pre)
         want = build(pre, "private")[0]
